@@ -104,22 +104,69 @@ func sanitizeFile(s string) string {
 	return s
 }
 
-// solveAll runs obligations in parallel.
+// solveAll runs obligations in parallel. Safety obligations of one basic
+// block are first tried as one conjunction (they share their context); only
+// when that batch is not refuted are they solved one by one.
 func solveAll(obls []*Obligation, dir string, timeout int, all bool, workers int) {
 	os.MkdirAll(dir, 0o755)
+	type job struct {
+		members []*Obligation
+	}
+	var jobs []job
+	batches := map[string][]*Obligation{}
+	var order []string
+	for _, o := range obls {
+		if o.Kind == "safety" && o.fv != nil && o.raw == "" {
+			k := fmt.Sprintf("%p/%d", o.fv, o.tag)
+			if _, ok := batches[k]; !ok {
+				order = append(order, k)
+			}
+			batches[k] = append(batches[k], o)
+			continue
+		}
+		jobs = append(jobs, job{[]*Obligation{o}})
+	}
+	for _, k := range order {
+		jobs = append(jobs, job{batches[k]})
+	}
 	var wg sync.WaitGroup
-	ch := make(chan *Obligation)
+	ch := make(chan job)
 	for i := 0; i < workers; i++ {
 		wg.Add(1)
 		go func() {
 			defer wg.Done()
-			for o := range ch {
-				o.Result = solve(o, dir, timeout, all, true)
+			for j := range ch {
+				if len(j.members) > 1 {
+					// batch: the last member's context contains all earlier ones
+					last := j.members[len(j.members)-1]
+					var goals []string
+					for _, m := range j.members {
+						goals = append(goals, implies(m.guard, m.goal))
+					}
+					ex := map[*Obligation]bool{}
+					for _, m := range j.members {
+						ex[m] = true
+					}
+					b := &Obligation{ID: last.ID + "+batch", Kind: "safety", tag: last.tag, nlines: last.nlines, guard: "true", goal: and(goals...), fv: last.fv, exclude: ex}
+					r := solve(b, dir, timeout, all, false)
+					if r.Verdict == "unsat" {
+						for _, m := range j.members {
+							rr := *r
+							rr.Seconds = r.Seconds / float64(len(j.members))
+							rr.Total = r.Total / float64(len(j.members))
+							m.Result = &rr
+						}
+						continue
+					}
+				}
+				for _, m := range j.members {
+					m.Result = solve(m, dir, timeout, all, true)
+				}
 			}
 		}()
 	}
-	for _, o := range obls {
-		ch <- o
+	for _, j := range jobs {
+		ch <- j
 	}
 	close(ch)
 	wg.Wait()
